@@ -77,14 +77,16 @@ pub fn validate_bonding_for_current_epoch(deps: &DepsMut, env: &Env) -> Result<(
     )?;
 
     let current_epoch = epoch_response.epoch;
-    let current_time = env.block.time.seconds();
-    pub const DAY_IN_SECONDS: u64 = 86_400u64;
+    let current_time = env.block.time.nanos();
+    pub const DAY_IN_NANOSECONDS: u64 = 86_400_000_000_000u64;
 
     // if the current time is more than a day after the epoch start time, then it means the latest
     // epoch has not been created and thus, prevent users from bonding/unbonding to avoid global_index
-    // timestamp issues when querying the weight.
+    // timestamp issues when querying the weight. The comparison is made in nanoseconds, as the fee
+    // distributor does when it decides that the epoch has expired: otherwise an address could bond
+    // after the next epoch's start time and still be treated as bonded before it.
     if current_epoch.id != Uint64::zero()
-        && current_time - current_epoch.start_time.seconds() > DAY_IN_SECONDS
+        && current_time - current_epoch.start_time.nanos() > DAY_IN_NANOSECONDS
     {
         return Err(ContractError::NewEpochNotCreatedYet {});
     }
